@@ -80,10 +80,32 @@ class World:
             ns['h%d' % hd['hid']] = handler(hd['name'], priority=hd.get('prio', 0), channel=hd.get('channel'))(f)
         self.App = type('App', (BaseComponent,), ns)
 
-        class Probe(BaseComponent):
-            @handler(priority=1000, channel='*')
-            def _probe(self, event, *args, **kwargs):
-                world._probe(event, args, kwargs)
+        unprobed = set(prog.get('unprobed') or ())
+        if unprobed:
+            # program option 'unprobed': events of these names have NO handler at all in the tree - not even the harness's catch-all probe,
+            # which is replaced by one that listens by name to everything else the program can fire and to every feedback event
+            names = {hd['name'] for hd in prog['handlers']} | set(prog.get('probe_names') or ()) | {'canary'}
+
+            def walk(x):
+                if isinstance(x, dict):
+                    if isinstance(x.get('name'), str):
+                        names.add(x['name'])
+                elif isinstance(x, (list, tuple)):
+                    for y in x:
+                        walk(y)
+            walk([hd['body'] for hd in prog['handlers']])
+            fb = {n + '_' + k for n in names for k in ('success', 'failure', 'complete', 'done')}
+            listen = sorted((names - unprobed) | fb | {'exception', 'started', 'stopped', 'registered', 'unregistered', 'prepare_unregister', 'signal'})
+
+            class Probe(BaseComponent):
+                @handler(*listen, priority=1000, channel='*')
+                def _probe(self, event, *args, **kwargs):
+                    world._probe(event, args, kwargs)
+        else:
+            class Probe(BaseComponent):
+                @handler(priority=1000, channel='*')
+                def _probe(self, event, *args, **kwargs):
+                    world._probe(event, args, kwargs)
 
         self.app = (root or self.App)() if root is None else root
         if root is not None:
